@@ -12,6 +12,7 @@
 #include "TFEL/Material/OrthotropicAxesConvention.hxx"
 #include "TFEL/Material/Hill.hxx"
 #include "TFEL/Material/StiffnessTensor.hxx"
+#include "TFEL/Material/Lame.hxx"
 #include "TFEL/Material/OrthotropicStressLinearTransformation.hxx"
 #include <cstring>
 #include <iostream>
@@ -350,6 +351,28 @@ int main(int argc, char** argv) {
       pin("stiff", sp);
       pin("lt", lp);
       pin("sfe", ep);
+      {
+        // isotropic altered tensors of the axisymmetrical generalised plane stress hypothesis (E = sp[0], nu = sp[3]):
+        // computeIsotropicStiffnessTensor<.., ALTERED>, computeAlteredElasticStiffness (Lame.hxx), and the unaltered tensor
+        constexpr auto agps = MH::AXISYMMETRICALGENERALISEDPLANESTRESS;
+        const double E = sp[0], nu = sp[3], la = nu * E / ((1 + nu) * (1 - 2 * nu)), mu = E / (2 * (1 + nu));
+        tfel::math::st2tost2<1u, double> Ca, Cu, Cl;
+        for (auto& x : Ca) x = 0;
+        for (auto& x : Cu) x = 0;
+        for (auto& x : Cl) x = 0;
+        tm_::computeIsotropicStiffnessTensor<agps, Alt::ALTERED, double, double>(Ca, E, nu);
+        tm_::computeIsotropicStiffnessTensor<agps, Alt::UNALTERED, double, double>(Cu, E, nu);
+        tm_::computeAlteredElasticStiffness<agps, double>::exe(Cl, la, mu);
+        auto pr3 = [&](const char* what, const tfel::math::st2tost2<1u, double>& C) {
+          std::printf("RUN %d %s 1 0", k, what);
+          for (unsigned short i = 0; i < 3; ++i)
+            for (unsigned short j = 0; j < 3; ++j) std::printf(" %.17g", C(i, j));
+          std::printf("\n");
+        };
+        pr3("isoA", Ca);
+        pr3("isoU", Cu);
+        pr3("lameA", Cl);
+      }
       run_h<MH::AXISYMMETRICALGENERALISEDPLANESTRAIN>(rng, k, hp, sp, lp, ep);
       run_h<MH::AXISYMMETRICALGENERALISEDPLANESTRESS>(rng, k, hp, sp, lp, ep);
       run_h<MH::AXISYMMETRICAL>(rng, k, hp, sp, lp, ep);
